@@ -306,6 +306,15 @@ class Bench:
                            ("total", qr.signal_TOTL)):
             tw.set_data_flag(flag)
             out[name] = numpy.array(tw.d__data, dtype=complex)
+        # history of reads on the same response object: the parts and the total read again, in
+        # another order, must be what was read first (a read must not change what is stored)
+        again = {}
+        for name, flag in (("total", qr.signal_TOTL), ("REPH", qr.signal_REPH),
+                           ("total2", qr.signal_TOTL), ("NONR", qr.signal_NONR)):
+            tw.set_data_flag(flag)
+            again[name] = numpy.array(tw.d__data, dtype=complex)
+        out["_reread"] = max(float(numpy.max(numpy.abs(again[k] - out[k.rstrip("2")])))
+                             for k in again)
         return out, pw[str(self.spec["t2"])]
 
 
@@ -454,6 +463,10 @@ def eval_sys(case, tier):
         r = base[b]
         sc = max(float(numpy.max(numpy.abs(r["REPH"]))), float(numpy.max(numpy.abs(r["NONR"]))),
                  1e-300)
+        if r.get("_reread", 0.0) > TOL * sc:
+            add("total/reread-differs/%s" % shape,
+                "reading total, REPH, total, NONR again from the same response object differs "
+                "from the first reads by %.3g" % (r["_reread"] / sc), None)
         d = float(numpy.max(numpy.abs(r["total"] - (r["REPH"] + r["NONR"])))) / sc
         worst("total-sum", d)
         if not d <= TOL:
